@@ -44,6 +44,8 @@ enum Stream {
     OwnSource,
 }
 
+static OWN_SOURCE_SEEN: std::sync::Mutex<BTreeMap<[u64; 4], (usize, usize, String)>> = std::sync::Mutex::new(BTreeMap::new());
+
 struct ProviderLog {
     requests: Vec<usize>,
     bytes: u64,
@@ -445,6 +447,18 @@ fn run_combo(fx: &Fixture, n: usize, k: usize, t_first: u64, t_good: u64, t_own:
             let uniq: HashSet<u64> = limbs.iter().copied().collect();
             if uniq.len() != limbs.len() {
                 res.findings.push(Finding { class: "commit:preimage-limbs-repeat".into(), detail: format!("own source: limbs of one commit repeat: {:?}", c.preimages), n, k, stream: Stream::OwnSource, commit_seed: t });
+            }
+            // own-source preimages of ALL batch shapes, which are committed on different OS threads of
+            // this process: a per-thread generator that every thread seeds alike repeats across threads
+            {
+                let mut g = OWN_SOURCE_SEEN.lock().unwrap();
+                for pr in &c.preimages {
+                    if let Some((on, ok, tid)) = g.insert(*pr, (n, k, format!("{:?}", std::thread::current().id()))) {
+                        if (on, ok) != (n, k) || tid != format!("{:?}", std::thread::current().id()) {
+                            res.findings.push(Finding { class: "commit:preimage-reused-across-commits".into(), detail: format!("own source: preimage {:?} was also drawn by a commit of shape N={on} k={ok} on another thread of this process", pr), n, k, stream: Stream::OwnSource, commit_seed: t });
+                        }
+                    }
+                }
             }
             for pr in &c.preimages {
                 if !seen_o.insert(*pr) {
